@@ -390,6 +390,7 @@ def main():
             c2 = dict(cov or {})
             c2.update({'obligations': max(1, c2.get('obligations', 1)), 'discharged': 0, 'checker_cmd': fi['replay_cmd'], 'trusted_base': c2.get('trusted_base', []), 'undecided_by_verifier': reason, 'failing_input': fi})
             write_evidence(pid, a.tier, seed, t0, c2, ASSUMPTIONS_COMMON, 1)
+            print('UNDECIDED-BY-VERIFIER property=%s reason=%s' % (pid, reason))
             print('FAILING-INPUT property=%s %s' % (pid, fi['output'].splitlines()[0][:300] if fi['output'] else ''))
             print('VIOLATION property=%s replay=%s' % (pid, rpath))
             return 1
